@@ -302,6 +302,10 @@ def _flow_group_checks(rng, tier):
         forms = _formulas(members, 3, 2)
         if tier != "thorough":
             forms = [f for i, f in enumerate(forms) if i % 2 == 0]
+        # groups nested under the SAME operator: as written they have fewer operands than their normal form has alternatives
+        lf = lambda m_: ("leaf", m_)
+        forms = list(forms) + [("or", [lf("fa"), ("or", [lf("fb"), lf("fc")])]), ("or", [("or", [lf("fa"), lf("fb")]), lf("fc")]),
+                               ("and", [lf("fa"), ("and", [lf("fb"), lf("fc")])])]
         for f in forms:
             used = sorted({m for m in members if m in _fmt(f)})
             if len(used) < 2:
@@ -318,6 +322,18 @@ def _flow_group_checks(rng, tier):
                 seqs = list(itertools.product(alphabet, repeat=L))
                 if len(seqs) > (24 if tier != "thorough" else 200):
                     seqs = rng.sample(seqs, 24 if tier != "thorough" else 200)
+                # directed: every member finishes or fails, in every order (the barrier that ends an `await` whose alternatives failed
+                # must count the alternatives of the normal form, not the operands as written)
+                directed = []
+                for order in itertools.permutations(used):
+                    for fate in itertools.product("EK", repeat=len(used)):
+                        sq = tuple(fate[i] + order[i][1] for i in range(len(used)))
+                        sq = (sq + ("X",) * L)[:L]
+                        if sq not in directed:
+                            directed.append(sq)
+                if tier != "thorough" and len(directed) > 16 and f in forms[:-3]:
+                    directed = rng.sample(directed, 16)
+                seqs = list(dict.fromkeys(list(seqs) + directed))
                 for seq in seqs:
                     for idle_after in (None, 0) if tier != "thorough" else (None, 0, 1):
                         n += 1
